@@ -99,7 +99,7 @@ class HostKeys(MutableMapping):
                     # iterate over a copy: names are removed from the entry
                     _hostnames = list(entry.hostnames)
                     for h in _hostnames:
-                        if self.check(h, entry.key):
+                        if self._is_listed(h, entry.key):
                             entry.hostnames.remove(h)
                     if len(entry.hostnames):
                         self._entries.append(entry)
@@ -202,6 +202,23 @@ class HostKeys(MutableMapping):
                 or h.startswith("|1|")
                 and not hostname.startswith("|1|")
                 and constant_time_bytes_eq(self.hash_host(hostname, h), h)
+            ):
+                return True
+        return False
+
+    def _is_listed(self, hostname, key):
+        """
+        Tests whether some entry (not only the first one of its key type)
+        already associates ``key`` with ``hostname``.
+
+        :returns bool:
+        """
+        for e in self._entries:
+            if (
+                e.key is not None
+                and self._hostname_matches(hostname, e)
+                and e.key.get_name() == key.get_name()
+                and e.key.asbytes() == key.asbytes()
             ):
                 return True
         return False
